@@ -1,7 +1,13 @@
 import MidoProofs.Props.C10
+import MidoProofs.Props.C10b
 #print axioms Mido.Conc.step_inv
 #print axioms Mido.Conc.run_inv
 #print axioms Mido.Conc.C10_no_fault
 #print axioms Mido.Conc.C10_mutex
 #print axioms Mido.Conc.C10_fifo
 #print axioms Mido.Conc.C10_sender_order
+#print axioms Mido.Disc.step_inv
+#print axioms Mido.Disc.C10_disc_no_fault
+#print axioms Mido.Disc.C10_disc_fifo
+#print axioms Mido.Disc.C10_disc_exclusive
+#print axioms Mido.Disc.C10_disc_flag
